@@ -8,6 +8,7 @@ import NngModel.Proofs.LifeAioStep
 import NngModel.Proofs.LifeStep
 import NngModel.Proofs.LifeGlobalStep
 import NngModel.Proofs.LifePend
+import NngModel.Generated.C14
 namespace Nng.C10
 open Nng.Life Nng.LifeModel
 
